@@ -61,7 +61,10 @@ package logical
 //@   ensures [added]  add ==> !old(has(gs.witnessSignMap, hexOf(id))) && has(gs.witnessSignMap, hexOf(id)) && gs.witnessSignMap[hexOf(id)] == signature
 //@   ensures [dup]    !add ==> has(gs.witnessSignMap, hexOf(id)) == old(has(gs.witnessSignMap, hexOf(id))) && gs.witnessSignMap[hexOf(id)] == old(gs.witnessSignMap[hexOf(id)])
 //@   ensures [others] forall k string :: k != hexOf(id) ==> has(gs.witnessSignMap, k) == old(has(gs.witnessSignMap, k)) && gs.witnessSignMap[k] == old(gs.witnessSignMap[k])
-//@   modifies entries(gs.witnessSignMap), gs.groupSign
+//@   # exactly at the threshold (and beyond) a new share triggers recovery of the group signature
+//@   ensures [attempt] add && len(gs.witnessSignMap) >= gs.threshold && !old(sigValid(gs.groupSign)) ==> ghost(recattempts) == old(ghost(recattempts)) + 1
+//@   ensures [count]  add ==> len(gs.witnessSignMap) == old(len(gs.witnessSignMap)) + 1
+//@   modifies entries(gs.witnessSignMap), gs.groupSign, ghost(recattempts)
 
 //@ func groupSignGenerator.AddWitnessSign
 //@   property C15
@@ -71,7 +74,7 @@ package logical
 //@   ensures [added]  add ==> !old(has(gs.witnessSignMap, hexOf(id))) && has(gs.witnessSignMap, hexOf(id)) && gs.witnessSignMap[hexOf(id)] == signature
 //@   ensures [dup]    !add ==> has(gs.witnessSignMap, hexOf(id)) == old(has(gs.witnessSignMap, hexOf(id))) && gs.witnessSignMap[hexOf(id)] == old(gs.witnessSignMap[hexOf(id)])
 //@   ensures [others] forall k string :: k != hexOf(id) ==> has(gs.witnessSignMap, k) == old(has(gs.witnessSignMap, k)) && gs.witnessSignMap[k] == old(gs.witnessSignMap[k])
-//@   modifies entries(gs.witnessSignMap), gs.groupSign
+//@   modifies entries(gs.witnessSignMap), gs.groupSign, ghost(recattempts)
 
 // Whether the block is already on chain: reads the chain and may answer the proposer; it does not touch the
 // share sets.
